@@ -338,7 +338,7 @@ pub(crate) fn mk_section(off: (u32, u32), map: Option<SourceMap>) -> SourceMapSe
     SourceMapSection::new(off, None, map.map(DecodedMap::Regular))
 }
 
-fn mk_index(sections: Vec<SourceMapSection>) -> SourceMapIndex {
+pub(crate) fn mk_index(sections: Vec<SourceMapSection>) -> SourceMapIndex {
     SourceMapIndex::new(None, sections)
 }
 
@@ -494,229 +494,6 @@ fn c05_index_any() {
     kani::cover!(got.is_some() && got.map_or(false, |t| t.is_range()), "range token through an index");
     forget(idx);
 }
-
-// ---------------------------------------------------------------------------
-// C08 / C05: the per-token body of SourceMapIndex::flatten, lifted textually from
-// /repo/src/types.rs at run time, with `builder` bound to a recording mock that has
-// the method names and signatures the body uses.
-use std::cell::Cell;
-
-#[derive(Clone, Copy, PartialEq)]
-struct StrId(*const u8, usize);
-
-fn sid(s: Option<&str>) -> Option<StrId> {
-    s.map(|s| StrId(s.as_ptr(), s.len()))
-}
-
-struct MockBuilder {
-    adds: u32,
-    add_pos: (u32, u32, u32, u32),
-    add_source: Option<StrId>,
-    add_name: Option<StrId>,
-    add_range: bool,
-    ret_src_id: u32,
-    ret_name_id: u32,
-    has_answer: bool,
-    has_queries: Cell<u32>,
-    has_query_id: Cell<u32>,
-    sets: u32,
-    set_id: u32,
-    set_contents: Option<StrId>,
-    ignores: u32,
-    ignore_id: u32,
-}
-
-impl MockBuilder {
-    fn new() -> MockBuilder {
-        MockBuilder {
-            adds: 0,
-            add_pos: (0, 0, 0, 0),
-            add_source: None,
-            add_name: None,
-            add_range: false,
-            ret_src_id: kani::any(),
-            ret_name_id: kani::any(),
-            has_answer: kani::any(),
-            has_queries: Cell::new(0),
-            has_query_id: Cell::new(0),
-            sets: 0,
-            set_id: 0,
-            set_contents: None,
-            ignores: 0,
-            ignore_id: 0,
-        }
-    }
-    #[allow(clippy::too_many_arguments)]
-    fn add(&mut self, dst_line: u32, dst_col: u32, src_line: u32, src_col: u32, source: Option<&str>,
-           name: Option<&str>, is_range: bool) -> RawToken {
-        self.adds += 1;
-        self.add_pos = (dst_line, dst_col, src_line, src_col);
-        self.add_source = sid(source);
-        self.add_name = sid(name);
-        self.add_range = is_range;
-        RawToken {
-            dst_line,
-            dst_col,
-            src_line,
-            src_col,
-            src_id: if source.is_some() { self.ret_src_id } else { !0 },
-            name_id: if name.is_some() { self.ret_name_id } else { !0 },
-            is_range,
-        }
-    }
-    fn has_source_contents(&self, src_id: u32) -> bool {
-        self.has_queries.set(self.has_queries.get() + 1);
-        self.has_query_id.set(src_id);
-        self.has_answer
-    }
-    fn set_source_contents(&mut self, src_id: u32, contents: Option<&str>) {
-        self.sets += 1;
-        self.set_id = src_id;
-        self.set_contents = sid(contents);
-    }
-    fn add_to_ignore_list(&mut self, src_id: u32) {
-        self.ignores += 1;
-        self.ignore_id = src_id;
-    }
-}
-
-#[allow(unused_mut, unused_variables, unreachable_code, clippy::never_loop)]
-fn flat_step(token: Token<'_>, map: &SourceMap, off_line: u32, off_col: u32, builder: &mut MockBuilder) -> Result<()> {
-    for _once in 0..1 {
-        /*@LIFT flatten_token_body@*/
-    }
-    Ok(())
-}
-
-/// a section map with 2 sources and 1 name: source 0 has contents and is not
-/// ignored, source 1 has no contents and is on the ignore list (concrete, so that no
-/// container is built under a symbolic guard; the token's ids are what is symbolic)
-fn section_map(tok: RawToken) -> SourceMap {
-    let mut sm = mk_map(vec_of(&[tok]));
-    sm.sources.push("a".into());
-    sm.sources.push("b".into());
-    sm.names.push("x".into());
-    sm.sources_content.push(Some(SourceView::new("A".into())));
-    sm.sources_content.push(None);
-    sm.ignore_list.insert(1);
-    sm
-}
-
-fn flat_contract(overflow_free: bool) {
-    let tok = any_token();
-    let sm = section_map(tok);
-    let off_line: u32 = kani::any();
-    let off_col: u32 = kani::any();
-    let want_line = tok.dst_line as u64 + off_line as u64;
-    let want_col = tok.dst_col as u64 + if tok.dst_line == 0 { off_col as u64 } else { 0 };
-    let fits = want_line <= u32::MAX as u64 && want_col <= u32::MAX as u64;
-    if overflow_free {
-        kani::assume(fits);
-    }
-    let mut b = MockBuilder::new();
-    let token = sm.get_token(0).unwrap();
-    let res = flat_step(token, &sm, off_line, off_col, &mut b);
-    let ok = res.is_ok();
-    forget(res);
-    if fits {
-        assert!(ok, "C08/flat-step-succeeds");
-    }
-    if ok {
-        assert!(b.adds == 1, "C08/flat-adds-each-token-once");
-        assert!(b.add_pos.0 as u64 == want_line, "C08/flat-moved-down-by-line-offset");
-        assert!(b.add_pos.1 as u64 == want_col, "C08/flat-moved-right-on-first-line-only");
-        assert!(b.add_pos.2 == tok.src_line && b.add_pos.3 == tok.src_col, "C08/flat-original-position-carried");
-        let src_name = if tok.src_id == !0 { None } else { sid(sm.get_source(tok.src_id)) };
-        let name = if tok.name_id == !0 { None } else { sid(sm.get_name(tok.name_id)) };
-        assert!(b.add_source == src_name, "C08/flat-source-name-carried");
-        assert!(b.add_name == name, "C08/flat-name-carried");
-        assert!(b.add_range == tok.is_range, "C08/flat-range-flag-carried");
-        let has_source = src_name.is_some();
-        if has_source && !b.has_answer {
-            assert!(b.sets == 1 && b.set_id == b.ret_src_id, "C08/flat-first-seen-contents-stored-under-new-id");
-            assert!(b.has_query_id.get() == b.ret_src_id, "C08/flat-contents-probe-uses-new-id");
-            assert!(b.set_contents == sid(sm.get_source_contents(tok.src_id)), "C08/flat-contents-fetched-with-section-id");
-        } else {
-            assert!(b.sets == 0, "C08/flat-contents-not-overwritten");
-        }
-        let ignored = tok.src_id == 1;
-        if ignored {
-            assert!(b.ignores == 1 && b.ignore_id == b.ret_src_id, "C08/flat-ignore-list-carried-under-new-id");
-        } else {
-            assert!(b.ignores == 0, "C08/flat-ignore-list-not-invented");
-        }
-        kani::cover!(has_source && !b.has_answer && tok.src_id == 0, "contents of first source carried");
-        kani::cover!(has_source && !b.has_answer && tok.src_id == 1, "absent contents of second source recorded as none");
-        kani::cover!(ignored && tok.src_id == 1, "ignored second source");
-        kani::cover!(tok.dst_line == 0 && off_col > 0, "first line shifted right");
-        kani::cover!(tok.dst_line > 0 && off_col > 0, "later line not shifted");
-        kani::cover!(!has_source && tok.src_id != !0, "dangling source id");
-    } else {
-        assert!(b.adds == 0, "C08/flat-failed-step-adds-nothing");
-    }
-    forget(sm);
-}
-
-#[kani::proof]
-#[kani::unwind(8)]
-#[kani::stub(alloc::fmt::format, crate::vstubs::fmt_format)]
-fn c08_flat_step() {
-    flat_contract(true)
-}
-
-// C05: same step with unconstrained offsets and positions: returns, never panics,
-// and never reports success with a wrapped position.
-#[kani::proof]
-#[kani::unwind(8)]
-#[kani::stub(alloc::fmt::format, crate::vstubs::fmt_format)]
-fn c05_flatten_arith() {
-    flat_contract(false)
-}
-
-// C08: flatten's forward translation and lookup_token's inverse translation agree on
-// every token position (2 sections x 1 token, C08's well-formedness).
-#[kani::proof]
-#[kani::unwind(8)]
-#[kani::stub(alloc::fmt::format, crate::vstubs::fmt_format)]
-fn c08_agree() {
-    let o0: (u32, u32) = kani::any();
-    let o1: (u32, u32) = kani::any();
-    kani::assume(o0 < o1);
-    let t0 = any_token();
-    let t1 = any_token();
-    kani::assume(!t0.is_range && !t1.is_range);
-    let which: bool = kani::any();
-    // C08 quantifies over index maps whose translated positions exist (no u32 overflow; that region is C05's)
-    kani::assume(t0.dst_line as u64 + o0.0 as u64 <= u32::MAX as u64 && t1.dst_line as u64 + o1.0 as u64 <= u32::MAX as u64);
-    kani::assume(t0.dst_col as u64 + o0.1 as u64 <= u32::MAX as u64 && t1.dst_col as u64 + o1.1 as u64 <= u32::MAX as u64);
-    // flattened positions through the repository's own step
-    let m0 = mk_map(vec_of(&[t0]));
-    let m1 = mk_map(vec_of(&[t1]));
-    let mut b0 = MockBuilder::new();
-    let mut b1 = MockBuilder::new();
-    let r0 = flat_step(m0.get_token(0).unwrap(), &m0, o0.0, o0.1, &mut b0);
-    let r1 = flat_step(m1.get_token(0).unwrap(), &m1, o1.0, o1.1, &mut b1);
-    kani::assume(r0.is_ok() && r1.is_ok());
-    forget(r0);
-    forget(r1);
-    let p0 = (b0.add_pos.0, b0.add_pos.1);
-    let p1 = (b1.add_pos.0, b1.add_pos.1);
-    // well-formed index: section 0 keeps its token before section 1's offset
-    kani::assume(p0 < o1);
-    let mut secs = Vec::with_capacity(3);
-    secs.push(mk_section(o0, Some(m0)));
-    secs.push(mk_section(o1, Some(m1)));
-    let idx = mk_index(secs);
-    let (p, want) = if which { (p1, t1) } else { (p0, t0) };
-    let got = idx.lookup_token(p.0, p.1).map(|t| t.get_raw_token());
-    assert!(got.is_some(), "C08/agree-flattened-position-resolves");
-    assert!(got == Some(want), "C08/agree-same-original-location");
-    kani::cover!(which && t1.dst_line == 0 && o1.1 > 0, "second section, first line, shifted");
-    kani::cover!(!which && t0.dst_line > 0, "first section, later line");
-    kani::cover!(!which && p0.0 == o1.0, "token on the line where the next section starts");
-    forget(idx);
-}
-
 
 // ---------------------------------------------------------------------------
 // C10: adjust_mappings composes interval by interval (small token sets, 30-bit fields).
